@@ -46,11 +46,11 @@ def setGlobal (s : SymSt) (v : Val) : SymSt :=
 /-- `SymbolBindings::set_scope` -/
 def push (s : SymSt) (v : Val) : SymSt := { s with items := v :: s.items }
 
-/-- `SymbolBindings::unset` (after the fix); `none` when there is nothing to pop. -/
+/-- `SymbolBindings::unset`; `none` when there is nothing to pop.  (The `has_global` flag is
+    sticky, as in the Rust code.) -/
 def pop (s : SymSt) : Option SymSt :=
   match s.items with
   | [] => none
-  | [_] => some { s with items := [], hasGlobal := false }
   | _ :: rest => some { s with items := rest }
 
 def get (s : SymSt) : Option Val := s.items.head?
